@@ -342,3 +342,14 @@ Proof.
     + rewrite He. exact Hb.
   - intros [e [_ Hb]]. apply andb_true_iff in Hb. destruct Hb as [H1 H2]. exists e. split; [apply bits_ref_spec; exact H1|exact H2].
 Qed.
+
+(* soundness of the iterator without any size hypothesis: it only ever yields members *)
+Lemma bits_iter_sound fuel x i : In i (bits_iter fuel x) -> N.testbit x i = true.
+Proof.
+  revert x. induction fuel as [|f IH]; intros x H; [destruct H|].
+  cbn [bits_iter] in H. destruct (N.eqb_spec x 0) as [E|E]; [destruct H|].
+  destruct H as [<-|H]; [apply ctz64_bit; lia|].
+  apply IH in H. rewrite N.land_spec in H. apply andb_true_iff in H. tauto.
+Qed.
+Lemma bits_sound x i : In i (bits x) -> N.testbit x i = true.
+Proof. apply bits_iter_sound. Qed.
